@@ -1,6 +1,7 @@
 package main
 
 import (
+	"strings"
 	"fmt"
 	"go/types"
 
@@ -52,6 +53,7 @@ func c10f(c *Ctx) {
 		dispatchTotal(c, rs, "renderStatements", 2)
 	}
 	dispatchTotal(c, emit, "Emit", 5)
+	c10fReadOut(c)
 	heads := loopHeaders(emit)
 	// every successful return of the script emitter is what renderChunks produced (an early
 	// `return "", nil` for scripts judged empty leaves the script's label undefined)
@@ -292,4 +294,57 @@ func dispatchTotal(c *Ctx, emit *ssa.Function, label string, minArms int) {
 		}
 		c.Check(!skipped, label+"/no-statement-passed-over", c.W.FuncPos(emit), "every statement is handed to an emit function (or is of a kind another loop renders)", "a turn of "+label+"'s loop can come back to the loop head (from "+c.nearPos(wit)+") without the statement having been handed to any emit function: statements would be dropped depending on what they contain")
 	}
+}
+
+// c10fReadOut: what an emitter function returns as text is the read-out of the builder it wrote
+// into — nothing reworks a finished piece of output between the last write and the return.
+func c10fReadOut(c *Ctx) {
+	n := 0
+	for _, fn := range c.W.FuncsOf("emitter") {
+		if isTestFunc(c.W, fn) || len(fn.Blocks) == 0 || fn.Signature.Results().Len() == 0 {
+			continue
+		}
+		if b, ok := fn.Signature.Results().At(0).Type().Underlying().(*types.Basic); !ok || b.Kind() != types.String {
+			continue
+		}
+		var builders []*ssa.Alloc
+		instrs(fn, func(in ssa.Instruction) {
+			if a, ok := in.(*ssa.Alloc); ok && strings.HasSuffix(a.Type().String(), "*strings.Builder") {
+				builders = append(builders, a)
+			}
+		})
+		if len(builders) == 0 {
+			continue
+		}
+		for i, r := range returnsOf(fn) {
+			v := r.Results[0]
+			if k, isC := v.(*ssa.Const); isC && k.Value != nil && k.Value.ExactString() == `""` && len(r.Results) == 2 {
+				if e, isE := r.Results[1].(*ssa.Const); !isE || !e.IsNil() {
+					continue // an error return
+				}
+			}
+			n++
+			var leaves []ssa.Value
+			phiLeaves(v, map[ssa.Value]bool{}, &leaves)
+			okR := len(leaves) > 0
+			for _, lf := range leaves {
+				call, isCall := lf.(*ssa.Call)
+				if !isCall || calleeName(call) != "(*strings.Builder).String" {
+					okR = false
+					continue
+				}
+				own := false
+				for _, b := range builders {
+					if call.Call.Args[0] == ssa.Value(b) {
+						own = true
+					}
+				}
+				if !own {
+					okR = false
+				}
+			}
+			c.Check(okR, fmt.Sprintf("read-out/%s#%d", c.W.FuncKey(fn), i), c.W.Pos(r.Pos()), "the text returned is the read-out of the function's own builder", c.W.FuncKey(fn)+" returns "+pretty(c.term(fn, v))+": the text that was written is reworked before it is handed back, so the output is no longer what the emitters wrote")
+		}
+	}
+	c.Check(n >= 8, "read-out/census", "-", fmt.Sprintf("%d text returns of builder-filling emitter functions", n), fmt.Sprintf("only %d text returns found", n))
 }
